@@ -1,17 +1,25 @@
 (* C08 - kernel K14 (VerifGen.K14, translated from pack_dataclass on this run): the builder created
    for a nested dataclass without a to_dict method receives the compiling builder's own default
-   dialect and dialect; the owner's Config.dialect is never handed down. *)
+   dialect (the owner's Config.dialect is never handed down) and, as dialect, None under a mixin
+   builder / the builder's dialect under a codec builder. *)
 From Coq Require Import List String Ascii ZArith Bool.
 From Verif Require Import Regex PyK OptProj OptNested OptEnc.
 From VerifGen Require Import K14.
 Import ListNotations.
 Open Scope string_scope.
 
-Theorem K14_passdown_lemma : forall dd d cd ta : kv,
-  nested_default_dialect dd d cd ta = Ok dd /\ nested_dialect dd d cd ta = Ok d.
-Proof. intros. split; reflexivity. Qed.
+Theorem K14_passdown_lemma : forall dd d cd ta nailed : kv,
+  nested_default_dialect dd d cd ta nailed = Ok dd /\
+  nested_dialect dd d cd ta nailed = Ok (if k_truthy nailed then KNone else d).
+Proof.
+  intros. split; [reflexivity|]. unfold nested_dialect. cbn. destruct (k_truthy nailed); reflexivity.
+Qed.
 
-(* OptNested.pass_dd is the translated argument *)
-Theorem K14_pass_dd_lemma : forall (dd d cd: option ns) (ta: kv),
-  nested_default_dialect (enc_ons dd) (enc_ons d) (enc_ons cd) ta = Ok (enc_ons (pass_dd dd d cd)).
-Proof. intros. reflexivity. Qed.
+(* OptNested.pass_dd / pass_dialect are the translated arguments *)
+Theorem K14_pass_dd_lemma : forall (dd d cd: option ns) (ta: kv) (nailed: bool),
+  nested_default_dialect (enc_ons dd) (enc_ons d) (enc_ons cd) ta (KBool nailed) = Ok (enc_ons (pass_dd dd d cd)) /\
+  nested_dialect (enc_ons dd) (enc_ons d) (enc_ons cd) ta (KBool nailed) = Ok (enc_ons (pass_dialect nailed d)).
+Proof.
+  intros. destruct (K14_passdown_lemma (enc_ons dd) (enc_ons d) (enc_ons cd) ta (KBool nailed)) as [H1 H2].
+  split; [exact H1|]. rewrite H2. cbn. destruct nailed; reflexivity.
+Qed.
